@@ -92,7 +92,8 @@ Proof. exact lower_times. Qed.
    masks, jumps forwards and backwards (loops) to user labels, with or without a time argument.  Both are
    validated against AstVm itself on every run (Corr.C02.model_run: source body, and raised compiled code).
    For every body of statements covered by [wf_stmt] (assignments with any compound operator over jump-free
-   right-hand sides, ternary assignments, single-variable declarations with a jump-free or ternary initialiser,
+   right-hand sides, ternary assignments, declarations (one variable with a jump-free or ternary initialiser, or several
+   variables with jump-free initialisers),
    scope ends, empty statements, conditional / counting / unconditional jumps, labels, interrupts, instruction
    calls with jump-free arguments (complex arguments go through temporaries that are live across the call and freed after it);
    statements disabled on the VM's difficulty are waited for and skipped),
@@ -133,7 +134,7 @@ Example C02_body_example :
     wprog gen_optable libm lty (Some 0%nat) 10 code Exec ex_st0 None = Ok st'.
 Proof. exact body_example. Qed.
 
-(* The full property, for reference.  Not yet a theorem: multi-variable declarations, ternaries as call
+(* The full property, for reference.  Not yet a theorem: declarations without initialiser, ternaries as call
    arguments, difficulty switches inside expressions, ternaries nested inside
    arithmetic, and the composition with register allocation
    (Proofs/RegAllocSem.v, regalloc_simulates).  Those parts are covered by the structural correspondence (model lowering =
